@@ -67,5 +67,7 @@ void dd_union(DD *r, const DD *a, const DD *b) { new (r) DD(*a | *b); }
 void dd_inter(DD *r, const DD *a, const DD *b) { new (r) DD(*a & *b); }
 void dd_union_with(DD *a, const DD *b) { *a |= *b; }
 void dd_insert(DD *a, const K *e) { *a += *e; }
+void dd_plus(DD *r, DD *a, const K *e) { new (r) DD(*a + *e); }
+void dd_minus(DD *r, DD *a, const K *e) { new (r) DD(*a - *e); }
 void sd_widening_thresholds(SD *r, const SD *a, const SD *b, const TS *ts) { *r = a->widening_thresholds(*b, *ts); }
 }
